@@ -26,7 +26,7 @@
 (***************************************************************************)
 EXTENDS Integers, Sequences, FiniteSets, TLC, Json
 
-CONSTANTS Mode, Picks
+CONSTANTS Mode, Picks, Stride, Offset
 
 Day == 86400
 Month == 30 * Day
@@ -62,6 +62,8 @@ RECURSIVE ProdTo(_)
 ProdTo(n) == IF n = 0 THEN 1 ELSE Radix[n] * ProdTo(n - 1)
 NPg == ProdTo(Len(Radix))
 Digit(i, n) == ((i \div ProdTo(n - 1)) % Radix[n]) + 1
+PicksAll == 0..(NPg - 1)
+PicksStride == {i \in PicksAll : i % Stride = Offset}
 PgRec(i) ==
   [y |-> Ys[Digit(i, 1)], mo |-> Mos[Digit(i, 2)], d |-> Ds[Digit(i, 3)], tneg |-> Digit(i, 4) = 2,
    h |-> Hs[Digit(i, 5)], m |-> Ms[Digit(i, 6)], s |-> Ss[Digit(i, 7)],
